@@ -114,11 +114,12 @@ def _mk_invalid_kind(spec, kind, pick):
 def strategy(tier):
     valid = gen_factory.factories(PROFILE)
     valid_k1 = gen_factory.factories(dict(PROFILE, nb_to_conveyor=True))
+    valid_k7 = gen_factory.factories(dict(PROFILE, fleet_zero_delay=True, conveyors=False, edge_kinds=["Buffer", "Fleet", "Fleet"]))
     valid_conv = gen_factory.factories(dict(PROFILE, conveyor_weight=3, pack=0, edge_kinds=["Buffer", "Buffer", "Fleet"]))
     safe = gen_factory.factories({"pack": 1})
     invalid = st.tuples(safe, st.integers(0, 1000), st.integers(0, 1000)).map(_mk_invalid).map(
         lambda s: s if s is not None else {"skip": True})
-    return st.one_of(valid, valid, valid_conv, valid_conv, valid_k1, invalid, invalid)
+    return st.one_of(valid, valid, valid, valid_conv, valid_conv, valid_conv, valid_k1, valid_k7, invalid, invalid, invalid)
 
 
 shrink_candidates = gen_factory.shrink_candidates
@@ -204,6 +205,12 @@ def _root(exc):
 
 
 def _dominant(f):
+    if any(e["kind"] == "Fleet" and e.get("delay") == 0 for e in f.spec["edges"]):
+        return "Fleet(delay=0)"
+    return _dominant_by_ledger(f)
+
+
+def _dominant_by_ledger(f):
     # component class with most ledger entries at the spinning instant, else the edge kinds with zero delay
     now = f.env.now
     cnt = {}
